@@ -39,6 +39,8 @@ func VerifNewHandlerStore[T comparable]() VerifHandlerStore[T] {
 }
 func (v VerifHandlerStore[T]) On(h T)      { v.s.on(h) }
 func (v VerifHandlerStore[T]) Once(h T)    { v.s.once(h) }
+func (v VerifHandlerStore[T]) OnSub(h T)   { v.s.onSubEvent(h) }
+func (v VerifHandlerStore[T]) Subs() []T   { return append([]T{}, v.s.subs...) }
 func (v VerifHandlerStore[T]) Off(h ...T)  { v.s.off(h...) }
 func (v VerifHandlerStore[T]) OffAll()     { v.s.offAll() }
 func (v VerifHandlerStore[T]) GetAll() []T { return v.s.getAll() }
